@@ -65,7 +65,7 @@ var malformedPatterns = []struct {
 }{
 	{"/a/{}/b", "empty-name"}, {"/a/{:\\d+}", "empty-name"}, {"{}", "empty-name"},
 	{"/a/{id}{name}", "adjacent"}, {"{a}{b}/x", "adjacent"}, {`/x/{id:\d+}{y}/z`, "adjacent"},
-	{"/a/{id}/{id}", "duplicate-name"}, {"/{id}/b/{-id}", "duplicate-name"}, {`/{n:\d+}/{n}`, "duplicate-name"},
+	{"/a/{id}/{id}", "duplicate-name"}, {"{id}/x/{id}", "duplicate-name"}, {`{sub}.{zone}.example.com/{sub:\w+}`, "duplicate-name"}, {"{}/x", "empty-name"}, {"{a}{b}", "adjacent"}, {"/{id}/b/{-id}", "duplicate-name"}, {`/{n:\d+}/{n}`, "duplicate-name"},
 	{"/a/{id:[}/b", "bad-regexp"}, {"/a/{id:(}", "bad-regexp"}, {`{x:\d+}/{y:*}`, "bad-regexp"},
 }
 
@@ -160,9 +160,17 @@ func runC10(c *Ctx) {
 			} else {
 				pattern, class = p, "live"
 			}
-		case x < 9:
+		case x < 8:
 			m := ref.Pick(r, malformedPatterns)
 			pattern, class = m.p, "malformed-"+m.cls
+		case x < 9:
+			// one documented syntax error injected into a generated well-formed pattern (also at its very start)
+			base := gen.Pattern(r)
+			if len(live) > 0 && r.Bool() {
+				base = ref.Pick(r, live)
+			}
+			mp, mcls := gen.Malform(r, base)
+			pattern, class = mp, "malformed-"+mcls
 		default:
 			pattern, class = gen.Pattern(r), "fresh"
 		}
